@@ -119,19 +119,19 @@ func GetWorld(scheme string, n int) *World {
 	foreign := kit.NewForeignMember(scheme)
 	w.garbage = foreign
 	g := hotstuff.GetGenesis()
-	w.Blocks[0] = hotstuff.NewBlock(g.Hash(), kit.GenesisQC(), cmd("b0"), 1, 1)
+	w.Blocks[0] = kit.NewBlock(g.Hash(), kit.GenesisQC(), cmd("b0"), 1, 1)
 	kit.StoreAll(w.Members, w.Blocks[0])
 	w.Pool[PoolGenesis] = kit.GenesisQC()
 	w.Pool[PoolB0] = w.honestQC(w.Blocks[0], w.Q)
-	w.Blocks[1] = hotstuff.NewBlock(w.Blocks[0].Hash(), w.Pool[PoolB0], cmd("b1"), 2, hotstuff.ID(1+1%n))
-	w.Blocks[2] = hotstuff.NewBlock(w.Blocks[0].Hash(), w.Pool[PoolB0], cmd("b2"), 2, 1)
+	w.Blocks[1] = kit.NewBlock(w.Blocks[0].Hash(), w.Pool[PoolB0], cmd("b1"), 2, hotstuff.ID(1+1%n))
+	w.Blocks[2] = kit.NewBlock(w.Blocks[0].Hash(), w.Pool[PoolB0], cmd("b2"), 2, 1)
 	kit.StoreAll(w.Members, w.Blocks[1])
 	kit.StoreAll(w.Members, w.Blocks[2])
 	w.Pool[PoolB1] = w.honestQC(w.Blocks[1], n)
-	w.Blocks[3] = hotstuff.NewBlock(w.Blocks[1].Hash(), w.Pool[PoolB1], cmd("b3"), 5, 1)
+	w.Blocks[3] = kit.NewBlock(w.Blocks[1].Hash(), w.Pool[PoolB1], cmd("b3"), 5, 1)
 	kit.StoreAll(w.Members, w.Blocks[3])
 	w.Pool[PoolB3] = w.honestQC(w.Blocks[3], w.Q)
-	w.Unknown = hotstuff.NewBlock(w.Blocks[3].Hash(), w.Pool[PoolB3], cmd("unknown"), 6, 1)
+	w.Unknown = kit.NewBlock(w.Blocks[3].Hash(), w.Pool[PoolB3], cmd("unknown"), 6, 1)
 	w.Pool[PoolSubQuorum] = w.honestQC(w.Blocks[3], w.Q-1)
 	w.Pool[PoolRelabel9] = hotstuff.NewQuorumCert(w.Pool[PoolB1].Signature(), 9, w.Blocks[1].Hash())
 	w.Pool[PoolRelabelHuge] = hotstuff.NewQuorumCert(w.Pool[PoolB1].Signature(), 1<<63, w.Blocks[1].Hash())
